@@ -37,6 +37,8 @@ var templates = []string{
 	// body remembered per name from another VM's program would show here)
 	`interface I# {} class A# { function m() { return 5; } } class B# { function m() { return 6; } } class C# extends B# implements I# {} $o = new C#(); emit($o->m()); emit($o instanceof I#); emit($o instanceof A#); emit($o instanceof B#); foreach ($o as $k => $v) { emit($v); } emit(9);`,
 	`class P# { public $c = 7; public $a = 8; } $o = new P#(); foreach ($o as $k => $v) { emit($v); } class Q# { const A = 10; static $s = 50; function f() { return 4; } } $q = new Q#(); emit($q->f() + Q#::A + Q#::$s); function f1#() { return 9; } emit(f1#()); emit(9);`,
+	// inherited default-valued properties (three levels, a redeclaration in the middle)
+	`class A# { public $a = 1; public $b = 2; } class B# extends A# { public $c = 3; public $b = 5; } class C# extends B# { public $e = 6; } $o = new C#(); foreach ($o as $k => $v) { emit($v); } emit(9); $p = new B#(); foreach ($p as $k => $v) { emit($v); }`,
 	`class E1# extends Exception {} class E2# extends Exception {} try { throw new E2#("x"); } catch (E1# $e) { mark(1); } catch (E2# $e) { mark(4); } finally { mark(2); } mark(3); class Foo# { function m() { return 3; } } $o = new foo#(); emit($o->m());`,
 }
 
@@ -82,7 +84,9 @@ func sameLog(a, b []sx.Obs) bool {
 // H_order: the output under EVERY iteration order of every (2..3 entry) Go map ranged by
 // origami code equals the output under insertion order.
 func H_order() {
-	k := symx.Choose("template", 10)
+	// the templates whose output could depend on a Go map's order (the state-leaving ones are for H_pairs)
+	orderIdx := []int{0, 1, 2, 3, 4, 5, 6, 7, 8, 9, 16}
+	k := orderIdx[symx.Choose("template", len(orderIdx))]
 	ref, ok := runLog(inst(templates[k], ""))
 	symx.Assert(ok, "template runs (reference order)")
 	if !ok {
@@ -95,7 +99,7 @@ func H_order() {
 	if !ok2 {
 		return
 	}
-	symx.Assert(sameLog(ref, got), "template "+string(rune('0'+k))+": output independent of Go map iteration order")
+	symx.Assert(sameLog(ref, got), "template "+string(rune('a'+k))+": output independent of Go map iteration order")
 	symx.Reach("end")
 }
 
